@@ -44,8 +44,6 @@ type caseOut struct {
 	sample    map[string]interface{}
 }
 
-func rawJudge(c *Case) Verdict { return Judge(c) }
-
 // judgeLabelled runs the oracle and labels a violation with known ids.
 func judgeLabelled(c *Case) Verdict {
 	v := Judge(c)
@@ -381,7 +379,7 @@ func main() {
 		os.Stdout = devnull
 	}
 	res := &vh.Result{Engine: "htmloracle", Seed: *seed, Tier: *tier,
-		Rule: "Evaluations = (document, options, registry) triples for which the oracle reached a verdict; DistinctNontrivial = distinct generated inputs (SHA-1) with at least one judged triple whose output differs from the input. Malformed-stream inputs are judged for panic / error / second pass only."}
+		Rule: "Evaluations = (document, options, registry) triples for which the oracle reached a verdict; DistinctNontrivial = distinct conforming-stream inputs (SHA-1) with at least one judged triple whose output differs from the input. Malformed-stream inputs (separately counted in histogram stream/malformed) are judged for panic / error / second pass only and are not counted in DistinctNontrivial."}
 
 	allowKnown = *known || *witness != ""
 	if *witness != "" {
